@@ -30,7 +30,8 @@ META = {
                    "the scan, all-task loops in placement code select by dependency-edge identity only, horizon extension "
                    "is raise-only. The relation between two runs is NOT decided."
                    " Also: truth table of the inheritance guard (provided or inherited), evaluation of any priority range guard at 1 / 500 / 1000, the default deadline of backward tasks being the declared project end, and the local-id identity census."
-                   " Round 3: the scheduling horizon is never written as a task date (value closure through names and parameters), inheritance guard read as a formula whichever accessor spells it, limit-copy completeness, process-state rule.",
+                   " Round 3: the scheduling horizon is never written as a task date (value closure through names and parameters), inheritance guard read as a formula whichever accessor spells it, limit-copy completeness, process-state rule."
+                   " Round 4: inheritance guard evaluated over the must-facts at the call (early exits count), priority range probes.",
     "assumptions": [],
 }
 
